@@ -273,6 +273,7 @@ func (p *eventPool) get(size int) *Event {
 
 			// slowest path
 			p.slowWaiters.Inc()
+			verifGate("pool.std.beforeWait")
 			p.getMu.Lock()
 			p.getCond.Wait()
 			p.getMu.Unlock()
@@ -453,6 +454,7 @@ again:
 	p.slowWaiters.Inc()
 	p.getCond.L.Lock()
 	if !p.eventsAvailable() {
+		verifGate("pool.lowmem.beforeWait")
 		p.getCond.Wait()
 	}
 	p.getCond.L.Unlock()
